@@ -318,7 +318,7 @@ func runCheck(prop, tier string, seed int) int {
 	if err != nil {
 		return engineFail("contracts: %v", err)
 	}
-	timeout := 10
+	timeout := 20
 	if tier == "thorough" {
 		timeout = 60
 	}
